@@ -8,6 +8,7 @@ import random
 import traceback
 import fractions
 import multiprocessing as mp
+import contextlib
 import z3
 
 from . import core
@@ -18,6 +19,7 @@ VERIF = os.path.dirname(os.path.dirname(os.path.abspath(__file__)))
 REPO = os.environ.get('VERIF_REPO', '/repo')
 EVDIR = os.environ.get('VERIF_EVIDENCE_DIR') or os.path.join(VERIF, 'evidence')
 EXIT_OK, EXIT_VIOLATION, EXIT_HARNESS = 0, 1, 2
+_DEVNULL = open(os.devnull, 'w')
 
 
 def load_known():
@@ -128,7 +130,8 @@ class PathCtx:
         with self.patches.suspended():
             saved = core.ENG
             try:
-                return self.check.concrete(self.job, to_float_inputs(inputs))
+                with contextlib.redirect_stdout(_DEVNULL):
+                    return self.check.concrete(self.job, to_float_inputs(inputs))
             except Exception as e:  # the harness' concrete oracle crashed: treat as not reproduced, keep the trace
                 return dict(violation=None, error='concrete replay crashed: %s: %s' % (type(e).__name__, e))
             finally:
@@ -252,7 +255,8 @@ def run_job(args):
             if tracing:
                 sys.setprofile(prof)
             try:
-                check.path(ctx, job)
+                with contextlib.redirect_stdout(_DEVNULL):     # tracklib prints warnings / progress to stdout
+                    check.path(ctx, job)
             except (_Abort, _Stop):
                 raise
             except Unsupported as e:
@@ -279,7 +283,8 @@ def run_job(args):
                 m = None      # no exactly representable model of this path: a float run would not follow the same path
             if m is not None:
                 try:
-                    cres = check.concrete(job, to_float_inputs(inputs))
+                    with contextlib.redirect_stdout(_DEVNULL):
+                        cres = check.concrete(job, to_float_inputs(inputs))
                 except Exception as e:
                     cres = dict(outputs=None, error='%s: %s' % (type(e).__name__, e))
                 if cres is not None and cres.get('outputs') is not None:
